@@ -12,6 +12,9 @@ CLAIMED = {
     'C12': dict(design='DESIGN.md §3 C12', technique='deterministic simulation: seeded populations on MemoryStore + FileSystemStore (simulated disk, readdir order) queried through three filter delivery paths; independent filter evaluator + model-free conjunction/monotonicity laws; ddmin replay',
                 text='Seeded search over populations and filter sets (all 8 operators, 17 property paths incl. dotted paths, type/id optimiser mixes, hits and near misses), each delivered as query argument, attached to the source, or attached to a composite and passed down, compared with an independent evaluator over the list model; plus model-free laws.',
                 note='Trusts: own filter evaluator for the documented semantics; filters are generated only inside the documented semantics (like-typed ordering, != on scalars only, contains/in where element-equality and substring coincide); dict-kept objects only meet canonically spelled ms timestamps.'),
+    'C14': dict(design='DESIGN.md §3 C14', technique='deterministic simulation: seeded entry-point x version x allow_custom x input routing through real stores on a simulated disk; differential oracle against the direct parser + independent version-class and id-strictness oracles; ddmin replay',
+                text='Seeded search over every public entry point with a version parameter (parse_observable, memory store/source/sink construction, add, load_from_file, filesystem sink/store add, filesystem source/store get/all_versions/query, Environment.add) x {None,2.0,2.1} x allow_custom x inputs that separate the versions and the id strictness levels.',
+                note='Trusts: stix2.parse called with keyword arguments as the reference for acceptance (the property defines strictness relative to a direct parse); version base classes identify the version; own JSON normaliser.'),
 }
 
 NA = {
